@@ -171,3 +171,150 @@ def hexlist(a):
 
 def unhexlist(h):
     return np.array([float.fromhex(x) for x in h], dtype=float)
+
+
+# ----------------------------------------------------------------------------------------------
+# filter lengths that fall exactly on an integer (or one ulp beside it)
+#
+# neurodsp turns a length given in cycles of the low cut-off / in seconds into taps by
+#     ceil(fs * n_cycles / f_lo)   resp.   ceil(fs * n_seconds),   made odd by adding one.
+# The (fs, f_range, n_cycles) combinations of `signal` never put the product on an integer (n_cycles * period / 0.7), so a
+# computation that re-expresses the length (cycles -> seconds -> taps, fs / f_lo first, ...) and lands one ulp on the
+# other side of an integer gives the same taps everywhere.  The tables below are derived by search: all (fs, f_lo, n)
+# for which the mathematically equivalent ways of computing the length in binary64 do NOT all agree after the ceil.
+
+EXACT_FS = [50, 64, 100, 125, 128, 150, 200, 250, 256, 300, 400, 500, 512, 600, 750, 1000, 1024, 1200, 2000]
+EXACT_N = [2, 3, 4, 5]
+_EXACT_CACHE = {}
+
+
+def odd_taps(x):
+    """neurodsp's integer filter length for the real-valued length x."""
+    k = int(math.ceil(x))
+    return k + 1 if k % 2 == 0 else k
+
+
+def cycle_length_ways(fs, n, f_lo):
+    """The length of n cycles of f_lo in samples, computed in binary64 in mathematically equivalent ways; the first is
+    the documented one (neurodsp compute_filter_length, and `min_n_cycles * fs / f_lo` of the dual-threshold detector)."""
+    fs, n, f_lo = float(fs), float(n), float(f_lo)
+    return [fs * n / f_lo, fs * (n / f_lo), (fs / f_lo) * n, n * (1.0 / f_lo) * fs, fs * n * (1.0 / f_lo), n / (f_lo / fs)]
+
+
+def seconds_length_ways(fs, ns, f_lo):
+    """The length of ns seconds in samples: documented way first, then through a number of cycles of f_lo."""
+    fs, ns, f_lo = float(fs), float(ns), float(f_lo)
+    return [fs * ns, fs * (ns * f_lo) / f_lo, (ns * f_lo) * (fs / f_lo), ns / (1.0 / fs), (ns * f_lo) * fs / f_lo]
+
+
+def _relation(x, L):
+    return 'at' if x == L else 'above' if x > L else 'below'
+
+
+def _classify(ways, true, L):
+    """(rel, disc_taps, disc_ceil): where the documented computation lands relative to the integer L ('exact' = the
+    real-number value is L itself; 'at' = it is not but the rounded result is; 'above' / 'below' = an ulp beside it), and
+    whether the equivalent computations disagree in the odd tap count / in the plain ceil."""
+    rel = 'exact' if true == L else _relation(ways[0], L)
+    return rel, len(set(odd_taps(w) for w in ways)) > 1, len(set(int(math.ceil(w)) for w in ways)) > 1
+
+
+def exact_cycle_table(period):
+    """All (fs, f_lo, n, L) with fs in EXACT_FS, n in EXACT_N cycles, L an integer number of samples with the low
+    cut-off period L / n between 1.15 and 1.9 periods of the rhythm (the rhythm of `period` samples stays inside the band
+    (f_lo, 2 f_lo)), f_lo one of fs*n/L (binary64 quotient), its 6- and 3-decimal roundings and its two neighbours,
+    such that fs*n/f_lo is L within 1e-12 relative AND (the value is exactly L, or the equivalent binary64 computations
+    disagree after the ceil).  Entries: dict(fs, f_lo, n, L, rel, disc_taps, disc_ceil)."""
+    if period in _EXACT_CACHE:
+        return _EXACT_CACHE[period]
+    from fractions import Fraction
+    out = []
+    for fs in EXACT_FS:
+        for n in EXACT_N:
+            for L in range(int(math.ceil(1.15 * period * n)), int(math.floor(1.9 * period * n)) + 1):
+                q = fs * n / L
+                seen = set()
+                for f_lo in (q, round(q, 6), round(q, 3), math.nextafter(q, math.inf), math.nextafter(q, 0.0)):
+                    if f_lo in seen or f_lo <= 0:
+                        continue
+                    seen.add(f_lo)
+                    true = Fraction(fs * n) / Fraction(f_lo)
+                    if abs(true - L) > Fraction(L, 10 ** 12):
+                        continue
+                    rel, dt, dc = _classify(cycle_length_ways(fs, n, f_lo), true, L)
+                    if rel == 'exact' or dt or dc:
+                        out.append({'fs': fs, 'f_lo': f_lo, 'n': n, 'L': L, 'rel': rel, 'disc_taps': dt, 'disc_ceil': dc})
+    _EXACT_CACHE[period] = out
+    return out
+
+
+def _pick_short(r, entries):
+    """Weighted choice, weight 1 / L: two taps more change a short kernel (and what it filters out) more than a long one."""
+    return r.choices(entries, weights=[1.0 / e['L'] for e in entries])[0]
+
+
+def exact_cycles_pick(r, period, nsamp, n=None, need='taps'):
+    """One entry of exact_cycle_table(period) whose filter fits a signal of nsamp samples (n: the number of cycles asked
+    for, None = any).  need='taps': 80 % an entry on which the equivalent computations disagree in the odd tap count;
+    need='ceil': in the plain ceil (durations); the rest any entry; the relation classes (exact / at / above / below) are
+    drawn with equal weight.  None when there is no such entry."""
+    tab = [e for e in exact_cycle_table(period) if (n is None or e['n'] == n) and e['L'] + 2 < 0.9 * nsamp]
+    if not tab:
+        return None
+    key = 'disc_taps' if need == 'taps' else 'disc_ceil'
+    sel = [e for e in tab if e[key]]
+    if not sel or r.random() >= 0.8:
+        sel = tab
+    rels = sorted(set(e['rel'] for e in sel))
+    rel = r.choice(rels)
+    return dict(_pick_short(r, [e for e in sel if e['rel'] == rel]))
+
+
+def exact_seconds_pick(r, fs, f_lo, nsamp, lo_periods=0.4, hi_periods=4.0):
+    """n_seconds = L / fs (binary64 quotient, its 6- / 4-decimal rounding, its neighbours) for an integer L between
+    lo_periods and hi_periods periods of the low cut-off, such that fs * n_seconds is L within 1e-12 relative and (it is
+    exactly L or the equivalent computations disagree after the ceil); preference as in exact_cycles_pick.  Returns
+    dict(n_seconds, L, rel, disc_taps, disc_ceil) or None."""
+    from fractions import Fraction
+    P = fs / f_lo
+    out = []
+    for L in range(max(3, int(math.ceil(lo_periods * P))), int(min(hi_periods * P, 0.9 * nsamp - 2)) + 1):
+        q = L / fs
+        seen = set()
+        for ns in (q, round(q, 6), round(q, 4), math.nextafter(q, math.inf), math.nextafter(q, 0.0)):
+            if ns in seen or ns <= 0:
+                continue
+            seen.add(ns)
+            true = Fraction(fs) * Fraction(ns)
+            if abs(true - L) > Fraction(L, 10 ** 12):
+                continue
+            rel, dt, dc = _classify(seconds_length_ways(fs, ns, f_lo), true, L)
+            if rel == 'exact' or dt or dc:
+                out.append({'n_seconds': ns, 'L': L, 'rel': rel, 'disc_taps': dt, 'disc_ceil': dc})
+    if not out:
+        return None
+    sel = [e for e in out if e['disc_taps']]
+    if not sel or r.random() >= 0.8:
+        sel = out
+    rel = r.choice(sorted(set(e['rel'] for e in sel)))
+    return dict(_pick_short(r, [e for e in sel if e['rel'] == rel]))
+
+
+def roughen(seed, sig, level, dtype=None):
+    """`sig` plus broadband noise (pink + white, `level` standard deviations of the signal in total) from `seed`: on a
+    clean rhythm a filter kernel that is two taps longer moves no zero crossing; on a broadband signal it does.  Integer
+    (int64) samples stay integers, float32 samples stay float32 values."""
+    sig = np.asarray(sig, dtype=float)
+    n = len(sig)
+    nr = np.random.default_rng(seed)
+    sd = float(np.std(sig))
+    if not (sd > 0 and math.isfinite(sd)):
+        sd = 1.0
+    x = np.cumsum(nr.standard_normal(n))
+    x = x - np.linspace(x[0], x[-1], n)
+    out = sig + level * sd * (0.7 * x / (np.std(x) + 1e-12) + 0.7 * nr.standard_normal(n))
+    if dtype == 'int64':
+        out = np.round(out)
+    elif dtype == 'float32':
+        out = out.astype(np.float32).astype(float)
+    return out
